@@ -29,7 +29,7 @@ CONFIGS = {
 
 
 def memcheck_wrapper(outdir):
-    return ["valgrind", "-q", "--error-exitcode=97", "--leak-check=no", "--num-callers=24", "--child-silent-after-fork=no",
+    return ["valgrind", "-q", "--error-exitcode=97", "--leak-check=no", "--num-callers=24", "--child-silent-after-fork=no", "--track-origins=yes",
             "--suppressions=" + os.path.join(VERIF, "supp", "memcheck.supp"), "--log-file=" + os.path.join(outdir, "memcheck.%p")]
 
 
@@ -61,6 +61,8 @@ def classify_memcheck(text, repo):
             continue
         frames = re.findall(r"(?:at|by) 0x[0-9A-Fa-f]+: (\S+) \((?:in )?([^:)]+)(?::(\d+))?\)", b)
         site = None
+        # the stack of the error first, then the stack of the origin ("Uninitialised value was created by ..."): a value
+        # the library left uninitialised and the harness merely read is the library's, not the harness's
         for fn, fil, _ in frames:
             if os.path.basename(fil) in srcs:
                 site = fn
